@@ -63,6 +63,7 @@ func runC11(p *Prog, r *Report) {
 	c11HashOrder(p, r)
 	c11MemberHashOnly(p, r, impls)
 	c11EqualByInclusion(p, r)
+	cachedHashAuthors(p, r, "R11.8-one-hash-author")
 	r.Floor("R11.7-equal-by-inclusion", 4)
 	r.Floor("R11.6-member-hash-only", 10)
 	r.Floor("R11.1-typed-equality", 10)
